@@ -646,5 +646,6 @@ func TestVerifC19Gelf(t *testing.T) {
 	verifC19T = t
 	verifC19Setup()
 	defer verifC19Teardown()
+	verifC19Prop.CrashFile = true
 	verifC19Prop.Check(t)
 }
